@@ -41,6 +41,12 @@ type Specific interface {
 	AllocSpecific(sub string, v netip.Prefix) error
 }
 type ValueReleaser interface{ ReleaseValue(v netip.Prefix) error }
+
+// Mover re-assigns a subscriber to a given value the way a replayed or remote record does
+// (IPAllocator.SetAllocation, DistributedAllocator.handleRemoteChange).
+type Mover interface {
+	Move(sub string, v netip.Prefix) error
+}
 type Reloader interface {
 	// Reload serialises and restores (or restarts from the backing store) and returns the new instance.
 	Reload() (Pool, error)
@@ -50,8 +56,10 @@ type Resetter interface {
 	Reapply(sub string) error
 }
 type FaultInjectable interface {
-	// FailNext makes the next n-th store write (1 = next) fail.
+	// FailNext makes the next n-th store write (1 = next) fail; 0 disarms.
 	FailNext(n int)
+	// FaultPending reports whether an armed fault has not fired yet.
+	FaultPending() bool
 	// StoreHas reports whether the backing store has a record for sub and its value.
 	StoreHas(sub string) (netip.Prefix, bool)
 }
@@ -265,7 +273,7 @@ type Runner struct {
 	hist   []string
 	subs   []string // all subscribers mentioned so far (sorted on demand)
 	seen   map[string]bool
-	// pendingFault: a store fault is armed; the next mutating op may fail without it being a violation
+	// faultArmed: set by Do for the current op iff an injected store fault fired during it
 	faultArmed bool
 }
 
@@ -308,32 +316,30 @@ func (r *Runner) Do(op Op) {
 	r.hist = append(r.hist, op.String())
 	r.Obs.Ops[op.K]++
 	s := r.Spec
+	fi, hasFI := r.pool.(FaultInjectable)
+	armedBefore := hasFI && fi.FaultPending()
+	fired := func() bool { return armedBefore && !fi.FaultPending() }
 	switch op.K {
 	case "alloc":
 		r.note(op.Sub)
 		v, err := r.pool.Alloc(op.Sub)
 		prev, had := r.model.held(op.Sub)
 		if err != nil {
-			if r.faultArmed {
-				r.faultArmed = false
-				// failed persistence: memory and store must agree, and the address is back in circulation (C05/C12 judged by callers through sweep)
-				if fi, ok := r.pool.(FaultInjectable); ok {
-					sv, sok := fi.StoreHas(op.Sub)
-					lv, lfound, lsup := r.pool.Lookup(op.Sub)
-					if lsup && (sok != lfound || (sok && sv != lv)) {
-						r.bad("C12", "memory-store-agreement", "alloc-failed-write", "after failed store write during Alloc(%s): memory has (%v,%v) store has (%v,%v)", op.Sub, lv, lfound, sv, sok)
-					}
-					if had && !lfound && lsup {
-						// the subscriber held an allocation before the failed re-save and lost it: model follows the implementation's store (authoritative)
-						if !sok {
-							r.model.drop(op.Sub)
-						}
-					} else if had && lsup && lfound {
-						// still held
-					}
-					if !had && lsup && lfound {
-						// implementation kept an allocation it reported as failed
+			if fired() {
+				// failed persistence: the property wants the address back in circulation; memory is followed,
+				// memory-vs-store agreement is reported for C12.
+				sv, sok := fi.StoreHas(op.Sub)
+				lv, lfound, lsup := r.pool.Lookup(op.Sub)
+				if lsup && (sok != lfound || (sok && sv != lv)) {
+					r.bad("C12", "memory-store-agreement", "alloc-failed-write", "after failed store write during Alloc(%s): memory has (%v,%v) store has (%v,%v)", op.Sub, lv, lfound, sv, sok)
+				}
+				if lsup {
+					switch {
+					case !had && lfound:
+						r.bad("C05", "failed-persistence-frees", "alloc-error-but-still-held", "Alloc(%s) returned an error (store write failed) but the subscriber still holds %v", op.Sub, lv)
 						r.model.set(op.Sub, lv)
+					case had && !lfound:
+						r.model.drop(op.Sub)
 					}
 				}
 				break
@@ -350,7 +356,6 @@ func (r *Runner) Do(op Op) {
 			}
 			break
 		}
-		r.faultArmed = false
 		if !inRange(s, v) {
 			r.bad("C01", "in-range", rangeClass(s, v), "Alloc(%s) returned %v which is not a /%d unit inside %v", op.Sub, v, s.UnitBits, s.Range)
 		}
@@ -388,21 +393,17 @@ func (r *Runner) Do(op Op) {
 	case "release":
 		r.note(op.Sub)
 		err := r.pool.Release(op.Sub)
-		if err != nil && r.faultArmed {
-			r.faultArmed = false
-			if fi, ok := r.pool.(FaultInjectable); ok {
-				sv, sok := fi.StoreHas(op.Sub)
-				lv, lfound, lsup := r.pool.Lookup(op.Sub)
-				if lsup && (sok != lfound || (sok && sv != lv)) {
-					r.bad("C12", "memory-store-agreement", "release-failed-delete", "after failed store delete during Release(%s): memory has (%v,%v) store has (%v,%v)", op.Sub, lv, lfound, sv, sok)
-				}
-				if lsup && !lfound {
-					r.model.drop(op.Sub)
-				}
+		if fired() {
+			sv, sok := fi.StoreHas(op.Sub)
+			lv, lfound, lsup := r.pool.Lookup(op.Sub)
+			if lsup && (sok != lfound || (sok && sv != lv)) {
+				r.bad("C12", "memory-store-agreement", "release-failed-delete", "after failed store delete during Release(%s) (err=%v): memory has (%v,%v) store has (%v,%v)", op.Sub, err, lv, lfound, sv, sok)
+			}
+			if lsup && !lfound {
+				r.model.drop(op.Sub)
 			}
 			break
 		}
-		r.faultArmed = false
 		_ = err // releasing a non-holder may or may not be an error; not constrained
 		r.model.drop(op.Sub)
 	case "renew":
@@ -412,11 +413,13 @@ func (r *Runner) Do(op Op) {
 			if _, had := r.model.held(op.Sub); had {
 				if err == nil {
 					r.model.owner[op.Sub].lastRenew = r.model.epoch
-				} else if !r.faultArmed {
+				} else if !fired() {
 					r.bad("C05", "renew-within-grace", "renew-failed-for-holder", "Renew(%s) failed (%v) for a live holder", op.Sub, err)
+				} else if _, found, sup := r.pool.Lookup(op.Sub); sup && found {
+					// the local lease was renewed before the store write failed: still a live, renewed holder
+					r.model.owner[op.Sub].lastRenew = r.model.epoch
 				}
 			}
-			r.faultArmed = false
 		}
 	case "epoch":
 		if ep, ok := r.pool.(Epocher); ok {
@@ -466,6 +469,35 @@ func (r *Runner) Do(op Op) {
 		if o, ok := r.model.byVal[v]; ok && err == nil {
 			r.model.drop(o)
 		}
+	case "move":
+		r.note(op.Sub)
+		mv, ok := r.pool.(Mover)
+		units := Units(s.Range, s.UnitBits)
+		if !ok || len(units) == 0 {
+			break
+		}
+		var idx int
+		fmt.Sscanf(op.V, "%d", &idx)
+		if idx < 0 {
+			idx = len(units) + idx
+		}
+		v := units[((idx%len(units))+len(units))%len(units)]
+		o, taken := r.model.byVal[v]
+		if _, storeBacked := r.pool.(FaultInjectable); storeBacked && taken && o != op.Sub {
+			// a remote announcement for an address another subscriber holds is a cluster-level conflict;
+			// its handling (ignore, keep injectivity) is judged by C12 with a model of the shared store
+			break
+		}
+		_ = mv.Move(op.Sub, v)
+		got, found, sup := r.pool.Lookup(op.Sub)
+		if sup && found && got == v {
+			if taken && o != op.Sub {
+				r.bad("C01", "uniqueness", "move-onto-held-value", "re-assigning %s to %v succeeded although %s holds it", op.Sub, v, o)
+			} else {
+				r.model.drop(op.Sub)
+				r.model.set(op.Sub, v)
+			}
+		}
 	case "reapply":
 		r.note(op.Sub)
 		if rs, ok := r.pool.(Resetter); ok {
@@ -489,7 +521,6 @@ func (r *Runner) Do(op Op) {
 			n := 1
 			fmt.Sscanf(op.V, "%d", &n)
 			fi.FailNext(n)
-			r.faultArmed = true
 		}
 	}
 	r.sweep()
@@ -594,6 +625,9 @@ func (r *Runner) Drain(tag string) {
 	held := len(r.model.owner)
 	got := 0
 	r.hist = append(r.hist, "drain")
+	if fi, ok := r.pool.(FaultInjectable); ok {
+		fi.FailNext(0)
+	}
 	for i := 0; i < s.Usable+2; i++ {
 		sub := fmt.Sprintf("fresh-%s-%d", tag, i)
 		v, err := r.pool.Alloc(sub)
